@@ -194,8 +194,9 @@ def clip_to_bounds(array, bounds):
         if array.ndim != 2:
             raise ValueError(f"For non-scalar bounds, input array must be 2-dimensional. Got {array.ndim} dimensions.")
 
-        for feature in range(array.shape[1]):
-            clipped_array[:, feature] = np.clip(array[:, feature], lower[feature], upper[feature])
+        # Clip each feature to its own bounds (broadcast over the rows).  The result takes a dtype that can hold the
+        # bounds: writing into a copy of an integer or float32 array would round the clipped values out of the bounds.
+        clipped_array = np.clip(array, lower, upper)
 
     return clipped_array
 
